@@ -1,40 +1,152 @@
-//! Replays a violation artefact without the explorer: rebuilds the history on fresh replicas and
-//! prints every operation's outcome and the final views.
+//! Replays a violation artefact without the explorer: rebuilds the history on fresh replicas, prints
+//! every operation's outcome and the final views, then re-evaluates the oracle of the property on exactly
+//! that history (state probe on the history and on the history without its last operation, transition
+//! probe on the last operation). Exit 1 + VIOLATION line if the same signature is reported again, exit 0
+//! if it is not reproduced.
+use crate::explore::{Cx, Probe, Scenario};
 use crate::menu;
-use crate::world::{Op, World};
+use crate::world::{KeyOpts, Menu, Op, World};
 use serde_json::Value;
+use std::collections::HashSet;
+use std::sync::{Arc, Mutex};
+
+fn probes_for(p: &str) -> Vec<Arc<dyn Probe>> {
+    use crate::props::*;
+    match p {
+        "C01" => vec![Arc::new(c01::ConvergeProbe { deviations: true })],
+        "C02" => vec![Arc::new(c02::CausalProbe { max_missing: 6, max_lattice: 9, seen: Mutex::new(HashSet::new()) })],
+        "C03" => vec![Arc::new(c03::ReopenProbe)],
+        "C04" => vec![Arc::new(c04::ReadBackProbe)],
+        "C05" => vec![Arc::new(c05::WinnerProbe)],
+        "C06" => vec![Arc::new(c06::MergeProbe)],
+        "C07" => vec![Arc::new(c07::ResolveProbe)],
+        "C09" => vec![Arc::new(c09::FaultProbe { max_faults: 2, meld_subsets_up_to: 8, seen: Mutex::new(HashSet::new()) })],
+        "C11" => vec![Arc::new(c11::StorageMonitor)],
+        "C12" => vec![Arc::new(c12::MaintenanceProbe)],
+        "C13" => vec![Arc::new(c13::GraphProbe)],
+        "C14" => vec![Arc::new(c14::TravelProbe)],
+        "C15" => vec![Arc::new(c15::StageProbe)],
+        "C16" => vec![Arc::new(c16::StoredVersionsProbe)],
+        _ => vec![],
+    }
+}
 
 pub fn replay(path: &str) {
     let s = std::fs::read_to_string(path).expect("cannot read replay file");
     let v: Value = serde_json::from_str(&s).expect("replay file is not JSON");
     let prop = v["property"].as_str().unwrap_or("?").to_string();
-    println!("replaying {} violation, signature {}", prop, v["signature"]);
+    let sig = v["signature"].as_str().unwrap_or("?").to_string();
+    println!("replaying {} violation, signature {}", prop, sig);
     if let Some(input) = v["detail"].get("input") {
         println!("input: {}", input);
     }
     if let Some(a) = v["detail"].get("engine_s_replay").and_then(|a| a.as_array()) {
         let exe = format!("{}/engine_s/target/release/engine_s", crate::report::verif_root());
         let args: Vec<String> = a.iter().map(|x| x.as_str().map(|s| s.to_string()).unwrap_or_else(|| x.to_string())).collect();
-        let st = std::process::Command::new(exe).arg("--replay").args(&args).status();
-        println!("engine S replay exit: {:?}", st);
+        let out = std::process::Command::new(exe).arg("--replay").args(&args).output().expect("cannot run engine S");
+        let so = String::from_utf8_lossy(&out.stdout).to_string();
+        print!("{}", so);
+        if so.contains("replay: FAILED") {
+            println!("VIOLATION property={} replay={}", prop, path);
+            std::process::exit(1);
+        }
+        println!("not reproduced");
+        std::process::exit(0);
+    }
+    let hist: Vec<Op> = serde_json::from_value(v["history"].clone()).unwrap_or_default();
+    let has_menu = v["detail"].get("menu").is_some();
+    if hist.is_empty() || !has_menu {
+        // component-level finding (input-driven): re-run the quick check of the property and look for the signature
+        println!("no operation history in this artefact: re-running the quick check of {}", prop);
+        let exe = std::env::current_exe().unwrap();
+        let out = std::process::Command::new(exe).arg(&prop).args(["--tier", "quick"]).env("MV_NO_EVIDENCE", "1").output().expect("cannot re-run check");
+        let so = String::from_utf8_lossy(&out.stdout).to_string();
+        let again = so.lines().any(|l| l.starts_with("VIOLATION") && l.contains(&sig));
+        println!("recorded detail: {}", serde_json::to_string_pretty(&v["detail"]).unwrap_or_default().chars().take(3000).collect::<String>());
+        if again {
+            println!("VIOLATION property={} replay={}", prop, path);
+            std::process::exit(1);
+        }
+        println!("not reproduced");
+        std::process::exit(0);
+    }
+    let docs: Vec<Value> = v["detail"]["menu"]["docs"].as_array().cloned().unwrap_or_default();
+    let infos: Vec<Option<Value>> = v["detail"]["menu"]["infos"].as_array().map(|a| a.iter().map(|x| if x.is_null() { None } else { Some(x.clone()) }).collect()).unwrap_or_else(menu::infos);
+    let nrep = v["detail"]["menu"]["replicas"].as_u64().unwrap_or(2) as usize;
+    let m = Arc::new(Menu { docs, infos });
+    let order = if v["detail"]["menu"]["hash_order_reversed"].as_bool().unwrap_or(false) { Some(melda::verif_hooks::order::Mode::Reverse) } else { None };
+    melda::verif_hooks::order::set_thread_source(order.clone().map(melda::verif_hooks::order::Source::new));
+    let mut w = World::new(nrep, m.clone());
+    for op in &hist {
+        let o = w.apply(op);
+        println!("  {:<28} -> {}", op.short(), o.text().chars().take(200).collect::<String>());
+    }
+    for r in 0..nrep {
+        println!("view[{}] = {}", r, w.view(r));
+    }
+    drop(w);
+    // re-evaluate the oracle
+    let sc = Scenario { name: "replay".into(), nrep, menu: m, prologue: vec![], alphabet: vec![], key_opts: KeyOpts::default(), max_depth: 0, track: true, order };
+    let mut cx = Cx::default();
+    let probes = probes_for(&prop);
+    for p in &probes {
+        p.on_state(&sc, &hist, &mut cx);
+        if let Some((last, pre_hist)) = hist.split_last() {
+            p.on_state(&sc, pre_hist, &mut cx);
+            let pre = sc.build(pre_hist);
+            let mut post = sc.build(pre_hist);
+            let out = post.apply(last);
+            p.on_transition(&sc, pre_hist, last, &pre, &out, &post, &mut cx);
+        }
+    }
+    let sigs: Vec<&String> = cx.violations.iter().map(|x| &x.signature).collect();
+    println!("oracle re-evaluation reports: {:?}", sigs);
+    if prop == "C08" {
+        // C08 artefacts carry the failing call in detail.call; the printed outcomes above show panics / hangs
+        let failing = hist.last().map(|_| true).unwrap_or(false);
+        let _ = failing;
+    }
+    if cx.violations.iter().any(|x| x.signature == sig) || (probes.is_empty() && prop != "C08") {
         println!("VIOLATION property={} replay={}", prop, path);
         std::process::exit(1);
     }
-    let hist: Vec<Op> = serde_json::from_value(v["history"].clone()).unwrap_or_default();
-    if !hist.is_empty() || v["detail"].get("menu").is_some() {
-        let docs: Vec<Value> = v["detail"]["menu"]["docs"].as_array().cloned().unwrap_or_default();
-        let nrep = v["detail"]["menu"]["replicas"].as_u64().unwrap_or(2) as usize;
-        let m = menu::menu(docs);
-        let mut w = World::new(nrep, m);
-        for op in &hist {
-            let o = w.apply(op);
-            println!("  {:<28} -> {}", op.short(), o.text());
+    if prop == "C08" {
+        // re-apply the recorded call on the recorded state under the watchdog
+        let call = v["detail"]["call"].as_str().unwrap_or("").to_string();
+        let full = crate::props::c08::full_alphabet(nrep, sc.menu.docs.len());
+        let mut ex = crate::guard::Exec::new(1);
+        for op in full.into_iter().filter(|o| o.short() == call) {
+            let (sc2, h2) = (sc.clone(), hist.clone());
+            let r = ex.run(move || {
+                let mut w = sc2.build(&h2);
+                let o = w.apply(&op);
+                let v = w.view(op.replica());
+                (o.text(), v.to_string().contains("panic"))
+            });
+            match r {
+                crate::guard::Outcome::Done((o, view_panics)) => {
+                    println!("  {} -> {}", call, o);
+                    if o.starts_with("panic") || o.starts_with("hang") || view_panics {
+                        println!("VIOLATION property={} replay={}", prop, path);
+                        std::process::exit(1);
+                    }
+                }
+                _ => {
+                    println!("  {} did not return", call);
+                    println!("VIOLATION property={} replay={}", prop, path);
+                    std::process::exit(1);
+                }
+            }
         }
+        // read-type findings
+        let w = sc.build(&hist);
         for r in 0..nrep {
-            println!("view[{}] = {}", r, w.view(r));
+            if w.view(r).to_string().contains("panic") {
+                println!("VIOLATION property={} replay={}", prop, path);
+                std::process::exit(1);
+            }
         }
     }
-    println!("recorded detail: {}", serde_json::to_string_pretty(&v["detail"]).unwrap());
-    println!("VIOLATION property={} replay={}", prop, path);
-    std::process::exit(1);
+    println!("not reproduced");
+    std::process::exit(0);
 }
